@@ -96,8 +96,11 @@ def check(run: Run) -> None:
     fi = need("visit_UnaryOp")
     fa, st = stores(fi)
     nodep = ("param", fi.pos_params[1])
-    ok = bool(st) and all(v[0] == "app" and v[1][0] == "global" and v[1][1].endswith("lookup_type") and strip_visits_attr(v[2][-1]) == ("attr", nodep, "operand") for _n, _k, v in st)
-    run.check(ok, "C08.R1", fi, fi.node, "unary operator has its operand's type (total lookup)", f"visit_UnaryOp records {[show(v)[:60] for _n, _k, v in st]}")
+    keys = {k for _n, k, _v in st}
+    ok = bool(st) and len({v for _n, _k, v in st}) == 1 and nodep in keys
+    run.check(ok, "C08.R1", fi, fi.node, "one type is recorded for a unary operator, for the node as written too", f"visit_UnaryOp records {[show(v)[:60] for _n, _k, v in st]} (keys {[show(k) for k in keys]})")
+    # `not x` is a bool whatever x is (D55); -x, +x, ~x keep the operand's type
+    _decision(run, ctx, fi, {"operand": "L"}, TYPES4 + ["bool"], ["Not", "USub", "UAdd", "Invert"], _spec_unary, "C08.R1")
 
     # BinOp / IfExp decision lists
     _decision(run, ctx, need("visit_BinOp"), {"left": "L", "right": "R"}, TYPES3 + ["bool"], ["Div", "Add"], _spec_binop, "C08.R1")
@@ -338,6 +341,10 @@ def check(run: Run) -> None:
     check_mro_walk(run, m, "C08.R14")
     check_typing_swap(run, m, "C08.R17")
     check_dataclass_members(run, m, tt, "C08.R18")
+    check_bare_iterable(run, m, "C08.R19")
+    from .c07 import check_keyword_operands
+
+    check_keyword_operands(run, m, tt, "C08.R20")
     # "rejects a non-boolean filter with ValueError" - also at depth: nothing on the way may catch it
     from .c10 import check_refusals_propagate
 
@@ -491,6 +498,10 @@ def _spec_binop(l, r, op):
     return "int"
 
 
+def _spec_unary(l, _r, op):
+    return "bool" if op == "Not" else l
+
+
 def _spec_ifexp(l, r, _op):
     if l == r:
         return l
@@ -513,6 +524,11 @@ def _decision(run: Run, ctx, fi: FuncInfo, roles, domain, ops, spec, rule: str) 
             a = n.value.args[0]
             if isinstance(a, ast.Attribute) and a.attr in roles:
                 role_of[n.targets[0].id] = roles[a.attr]
+    _ROLES[0] = roles
+    for n in own_nodes(fi):
+        # the lookup written where it is used: self._found_types[node] = self.lookup_type(node.operand)
+        if isinstance(n, ast.Call) and isinstance(n.func, ast.Attribute) and n.func.attr == "lookup_type" and n.args and isinstance(n.args[0], ast.Attribute) and n.args[0].attr in roles:
+            role_of.setdefault("\0" + roles[n.args[0].attr], roles[n.args[0].attr])
     if set(role_of.values()) != set(roles.values()):
         missing_roles = sorted(set(roles.values()) - set(role_of.values()))
         if role_of and len(role_of) >= len(set(roles.values())):
@@ -538,7 +554,8 @@ def _decision(run: Run, ctx, fi: FuncInfo, roles, domain, ops, spec, rule: str) 
     _RESOLVE[0] = resolve
     _MODULE[0] = fi.module
     _MODEL[0] = m
-    for l, r, op in itertools.product(domain, domain, ops):
+    for l, r, op in itertools.product(domain, domain if "R" in roles.values() else domain[:1], ops):
+        _OPCUR[0] = op
         env = {}
         for var, role in role_of.items():
             env[var] = l if role == "L" else r
@@ -557,7 +574,15 @@ def _decision(run: Run, ctx, fi: FuncInfo, roles, domain, ops, spec, rule: str) 
 _OP = ("<the operator>",)
 
 
+_ROLES = [None]
+_OPCUR = [None]
+
+
 def _const_type(e: ast.AST, env):
+    if isinstance(e, ast.IfExp):
+        return _const_type(e.body if _test(e.test, env, _OPCUR[0]) else e.orelse, env)
+    if isinstance(e, ast.Call) and isinstance(e.func, ast.Attribute) and e.func.attr == "lookup_type" and e.args and isinstance(e.args[0], ast.Attribute) and _ROLES[0] and e.args[0].attr in _ROLES[0] and "\0" + _ROLES[0][e.args[0].attr] in env:
+        return env["\0" + _ROLES[0][e.args[0].attr]]
     if isinstance(e, ast.Attribute) and e.attr == "op":
         return _OP  # node.op handed to a helper: tested there with isinstance(op, ast.Div)
     if isinstance(e, ast.Name):
@@ -839,6 +864,131 @@ def check_typing_swap(run: Run, m, rule: str) -> None:
                             known = True
                 run.check(known, rule, f, stmt_of(x), "the swap is made for collections.abc classes only", "a generic base class is replaced by the entry of the typing module that has the same *name*, whatever the class is: a user's own class Collection(Generic[T]) / Sequence / Container / Set .. becomes typing.Collection, the methods it declares are no longer found and calls on JetColl[Jet] are typed Any", "if r_base.__module__ == 'collections.abc' and r_base.__name__ in typing.__dict__", key="base class swapped for a typing alias by name")
     run.floor(rule, n, 1, "look-ups of a typing alias by name in get_inherited")
+
+
+class _NoArgs:
+    """the value of typing.get_args(t) for an un-parameterised alias: an empty tuple"""
+
+
+def check_bare_iterable(run: Run, m, rule: str) -> None:
+    """`def things(self) -> Iterable` is a legitimate annotation (PEP 484: Iterable[Any]). unwrap_iterable is walked with
+    get_args(t) == (): it must come to `return Any`, not to a failing assert, an index into the empty tuple or a raise."""
+    from ..lib import view
+
+    run.rule(rule, "unwrap_iterable of an iterable type without a parameter (bare Iterable) is Any: walked with get_args(t) == ()")
+    ui = view(m, m.find_func("unwrap_iterable", in_module="func_adl.util_types"))
+    UNK = object()
+
+    def ev(e, env):
+        if isinstance(e, ast.Constant):
+            return e.value
+        if isinstance(e, ast.Name):
+            return env.get(e.id, UNK)
+        if isinstance(e, ast.Call) and ast.unparse(e.func).split(".")[-1] == "get_args":
+            return ()
+        if isinstance(e, ast.Call) and isinstance(e.func, ast.Name) and e.func.id in ("len", "bool", "list", "tuple") and len(e.args) == 1:
+            v = ev(e.args[0], env)
+            return UNK if v is UNK else {"len": len, "bool": bool, "list": list, "tuple": tuple}[e.func.id](v)
+        if isinstance(e, ast.UnaryOp) and isinstance(e.op, ast.Not):
+            v = ev(e.operand, env)
+            return UNK if v is UNK else (not v)
+        if isinstance(e, ast.BoolOp):
+            vs = [ev(v, env) for v in e.values]
+            if isinstance(e.op, ast.And):
+                return False if any(v is not UNK and not v for v in vs) else (UNK if any(v is UNK for v in vs) else vs[-1])
+            return True if any(v is not UNK and v for v in vs) else (UNK if any(v is UNK for v in vs) else vs[-1])
+        if isinstance(e, ast.Compare) and len(e.ops) == 1:
+            l, r = ev(e.left, env), ev(e.comparators[0], env)
+            if l is UNK or r is UNK:
+                return UNK
+            o = e.ops[0]
+            try:
+                return {ast.Eq: l == r, ast.NotEq: l != r, ast.Lt: l < r, ast.LtE: l <= r, ast.Gt: l > r, ast.GtE: l >= r, ast.Is: l is r, ast.IsNot: l is not r}.get(type(o), UNK)
+            except TypeError:
+                return UNK
+        if isinstance(e, ast.Subscript):
+            v = ev(e.value, env)
+            if v == () and not isinstance(e.slice, ast.Slice):
+                raise IndexError
+            return UNK
+        if isinstance(e, ast.IfExp):
+            t = ev(e.test, env)
+            if t is UNK:
+                return UNK
+            return ev(e.body if t else e.orelse, env)
+        return UNK
+
+    def is_any(e):
+        return e is not None and ast.unparse(e).split(".")[-1] == "Any"
+
+    found = []
+
+    def walk(body, env) -> bool:
+        """True when the walk ended (return / failure recorded)"""
+        for st in body:
+            try:
+                if isinstance(st, ast.Assign) and len(st.targets) == 1 and isinstance(st.targets[0], ast.Name):
+                    env[st.targets[0].id] = ev(st.value, env)
+                elif isinstance(st, ast.Assign) and len(st.targets) == 1 and isinstance(st.targets[0], (ast.Tuple, ast.List)):
+                    if ev(st.value, env) == () and st.targets[0].elts:
+                        found.append((st, "unpacks the (empty) argument tuple"))
+                        return True
+                elif isinstance(st, ast.Assert):
+                    v = ev(st.test, env)
+                    if v is not UNK and not v:
+                        found.append((st, "asserts that the type has an argument"))
+                        return True
+                elif isinstance(st, ast.If):
+                    v = ev(st.test, env)
+                    if v is UNK:
+                        if any(isinstance(x, (ast.Name, ast.Call)) and ev(x, env) == () for x in ast.walk(st.test)):
+                            raise AnalysisError(f"unwrap_iterable: test on the type's arguments outside the recognised forms: {ast.unparse(st.test)[:80]}")
+                        continue  # a test on something else (t is Any): both ways leave the arguments alone
+                    if walk(st.body if v else st.orelse, env):
+                        return True
+                elif isinstance(st, ast.Raise):
+                    found.append((st, "raises"))
+                    return True
+                elif isinstance(st, ast.Return):
+                    if st.value is not None and any(isinstance(x, ast.Subscript) for x in ast.walk(st.value)):
+                        ev(st.value, env)
+                    v = ev(st.value, env) if st.value is not None else None
+                    if is_any(st.value) or (isinstance(st.value, ast.IfExp) and v is UNK and is_any(st.value.body if ev(st.value.test, env) else st.value.orelse)):
+                        found.append((st, None))
+                    elif st.value is None or v is not UNK or any(isinstance(x, ast.Name) and env.get(x.id, UNK) == () for x in ast.walk(st.value)):
+                        found.append((st, f"returns {ast.unparse(st.value)[:60] if st.value is not None else None}"))
+                    else:
+                        raise AnalysisError(f"unwrap_iterable: cannot tell what `{ast.unparse(st)[:80]}` gives for a type without arguments")
+                    return True
+                elif isinstance(st, ast.Try):
+                    handlers = [h for h in st.handlers if h.type is None or any(n_ in ast.unparse(h.type) for n_ in ("IndexError", "LookupError", "Exception", "ValueError"))]
+                    n0 = len(found)
+                    try:
+                        ended = walk(st.body, env)
+                        failed = ended and found[n0:] and found[-1][1] is not None and handlers
+                    except IndexError:
+                        ended, failed = True, bool(handlers)
+                        if not handlers:
+                            raise
+                    if failed:
+                        del found[n0:]
+                        if walk(handlers[0].body, env):
+                            return True
+                    elif ended:
+                        return True
+                elif isinstance(st, (ast.While, ast.For, ast.Expr)):
+                    continue
+                else:
+                    raise AnalysisError(f"unwrap_iterable: statement outside the walked subset: {ast.unparse(st)[:60]}")
+            except IndexError:
+                found.append((st, "indexes the (empty) argument tuple"))
+                return True
+        return False
+
+    if not walk(ui.node.body, {}):
+        raise AnalysisError("unwrap_iterable: the walk with an empty argument tuple did not come to a return")
+    st, why = found[-1]
+    run.check(why is None, rule, ui, st, "a bare Iterable unwraps to Any", f"for an iterable type without a parameter unwrap_iterable {why}: a method annotated `-> Iterable` (PEP 484: Iterable[Any]) makes Count, First, Select, SelectMany and subscripting on its result fail with an internal error instead of giving element type Any", "if len(a) == 0: return Any", key="bare Iterable not unwrapped to Any")
 
 
 def check_dataclass_members(run: Run, m, tt, rule: str) -> None:
